@@ -1155,6 +1155,7 @@ fn compare_scalar_values(a: &ScalarValue, b: &ScalarValue) -> std::cmp::Ordering
         (ScalarValue::Null, ScalarValue::Null) => Ordering::Equal,
         (ScalarValue::Null, _) => Ordering::Less,
         (_, ScalarValue::Null) => Ordering::Greater,
+        (ScalarValue::Boolean(a), ScalarValue::Boolean(b)) => a.cmp(b),
         (ScalarValue::Int8(a), ScalarValue::Int8(b)) => a.cmp(b),
         (ScalarValue::Int16(a), ScalarValue::Int16(b)) => a.cmp(b),
         (ScalarValue::Int32(a), ScalarValue::Int32(b)) => a.cmp(b),
